@@ -73,12 +73,26 @@ Proof. intros Hc Hw. apply Hc. exact Hw. Qed.
 (* ---------- A1. Map::entry ---------- *)
 Lemma conserves_entry_of k : conserves E (entry_of E k) (idK E k) ids_entry.
 Proof.
-  unfold entry_of. apply conserves_scan_then; [intros; apply quiet_test_k|].
-  intros [i|] w Hw Hi.
-  - apply (conserves_bind0 E (drop_key E k) (fun _ => ret (Occupied i)) _ (fun _ => []));
-      [apply conserves_drop_key | | exact Hw].
-    intros _. apply (conserves_ret E (Occupied i) ids_entry).
-  - apply wp_ret. apply (cpostN_refl E w w (idK E k)); auto.
+  intros w Hw. unfold entry_of.
+  apply (wp_uscan_then (unwind_key E k) (idK E k));
+    [intros; apply quiet_test_k | apply unwind_key_spec | exact Hw | |].
+  - intros r w1 Hs Hg Hr.
+    assert (Hd : dropped (log w1) = dropped (log w)) by (rewrite Hg; reflexivity).
+    assert (Hw1 : WF (self w1)) by (rewrite Hs; exact Hw).
+    assert (Hgoal : wp (match r with
+                        | Some i => drop_key E k ;; ret (Occupied i)
+                        | None => ret (Vacant k)
+                        end)
+                       (fun e => cpostN E w1 (idK E k) (ids_entry e)) (cpostP E w1 (idK E k)) w1).
+    { destruct r as [i|].
+      - apply (conserves_bind0 E (drop_key E k) (fun _ => ret (Occupied i)) _ (fun _ => []));
+          [apply conserves_drop_key | | exact Hw1].
+        intros _. apply (conserves_ret E (Occupied i) ids_entry).
+      - apply wp_ret. apply (cpostN_refl E w1 w1 (idK E k)); auto. }
+    eapply wp_mono; [exact Hgoal | |]; cbn beta.
+    + intros e w2 H2. exact (cpostN_base E _ _ _ _ _ Hs Hd H2).
+    + intros w2 H2. exact (cpostP_base E _ _ _ _ Hs Hd H2).
+  - intros w1 Hrej. apply (rejected_cpostP E w w1 (idK E k) []); auto. rewrite app_nil_r. reflexivity.
 Qed.
 
 (* ---------- A2. OccupiedEntry::insert ---------- *)
@@ -518,17 +532,30 @@ Proof.
   intros [k'|]; cbn beta iota; rewrite ?ids_key_unit; reflexivity.
 Qed.
 
+Lemma ids_pairs_unit (l : list K) :
+  flat_map (ids_pair E) (List.map (fun x => (x, tt)) l) = flat_map (fun k => ids_pair E (k, tt)) l.
+Proof. induction l as [|a l IH]; cbn [List.map flat_map]; [reflexivity | rewrite IH; reflexivity]. Qed.
+
 Lemma conserves_s_extend_loop nx items :
   conserves E (s_extend_loop E debug nx items) (flat_map (fun k => ids_pair E (k, tt)) items) (fun _ => []).
 Proof.
-  induction items as [|k rest IH]; cbn [s_extend_loop flat_map].
+  induction items as [|k rest IH]; cbn [s_extend_loop].
   - apply (conserves_silent E _ []). apply silent_call_next.
-  - set (R := flat_map (fun k0 => ids_pair E (k0, tt)) rest) in *.
-    apply (conserves_bind E (ids_pair E (k, tt) ++ R) (call_next nx) _ [] (fun _ => []) (fun _ => [])).
-    + apply (conserves_silent E _ []). apply silent_call_next.
+  - set (F := flat_map (fun k0 : K => ids_pair E (k0, tt))) in *.
+    apply (conserves_bind0 E (on_unwind (unwind_pairs E (List.map (fun x => (x, tt)) (k :: rest))) (call_next nx)) _
+             ([] ++ F (k :: rest)) (fun _ => [] ++ F (k :: rest)) (fun _ => [])).
+    + apply (conserves_on_unwind E (F (k :: rest)) _ (call_next nx) [] (fun _ => [])).
+      * apply (conserves_silent E _ []). apply silent_call_next.
+      * unfold F. rewrite <- ids_pairs_unit. apply unwind_pairs_spec.
     + intros _.
-      apply (conserves_bind E R (s_insert E debug k) _ (ids_pair E (k, tt)) (fun _ => []) (fun _ => [])).
-      * apply conserves_s_insert_unit.
+      apply (conserves_bind0 E (on_unwind (unwind_pairs E (List.map (fun x => (x, tt)) rest)) (_ <- s_insert E debug k ;; ret tt)) _
+               (ids_pair E (k, tt) ++ F rest) (fun _ => [] ++ F rest) (fun _ => [])).
+      * apply (conserves_on_unwind E (F rest) _ (_ <- s_insert E debug k ;; ret tt)
+                 (ids_pair E (k, tt)) (fun _ => [])).
+        -- apply (conserves_bind0 E (s_insert E debug k) (fun _ => ret tt) _ (fun _ => []) (fun _ => []));
+             [apply conserves_s_insert_unit|]. intros b.
+           apply (conserves_ret E tt (fun _ : unit => [])).
+        -- unfold F. rewrite <- ids_pairs_unit. apply unwind_pairs_spec.
       * intros _. exact IH.
 Qed.
 
